@@ -18,8 +18,7 @@
 //!  * **C16** — `drop_doc` is refused while another handle holds the document and then changes
 //!    nothing; after a successful drop every stale handle fails, the document is not listed, and a
 //!    re-import is empty.
-//! A mismatch that belongs to another property ends the history (the model is out of step) and is
-//! counted, not reported.
+//! A mismatch that belongs to another property is counted, not reported; the history goes on.
 
 use std::collections::BTreeMap;
 
@@ -195,19 +194,24 @@ async fn one(ctx: &mut Ctx, case: u64, rng: &mut Rng, node: &Node) {
     let mut drops_ok = 0u32;
     let mut upgrades = 0u32;
     ctx.eval();
+    let mut foreign = false;
     // a mismatch: reported when the clause belongs to the property of this run
     macro_rules! mismatch {
         ($tag:expr, $sig:expr, $detail:expr) => {{
             if owner($tag) == ctx.prop.as_str() {
-                ctx.violation(case, &format!("api:{}", $sig), json!({"trace": trace, "detail": $detail}));
-            } else {
-                ctx.count("mismatches_belonging_to_another_property(history ended)", 1);
-                if std::env::var("VCHECK_TRACE").is_ok() {
-                    eprintln!("foreign mismatch [{}] {}: {} {:?}", owner($tag), $sig, json!($detail), trace);
-                }
+                ctx.violation(case, &format!("api:{}", $sig), json!({"trace": trace, "detail": $detail, "after_a_mismatch_of_another_property": foreign}));
+                cleanup(api, &mut docs).await;
+                return;
             }
-            cleanup(api, &mut docs).await;
-            return;
+            // The clause belongs to another property (whose own run reports it). The history goes on
+            // with the specification as it is: on the unchanged tree this never happens, and on a
+            // changed tree the clauses of this run's property are still exercised afterwards.
+            ctx.count("mismatches_belonging_to_another_property", 1);
+            foreign = true;
+            if std::env::var("VCHECK_TRACE").is_ok() {
+                eprintln!("foreign mismatch [{}] {}: {} {:?}", owner($tag), $sig, json!($detail), trace);
+            }
+            continue;
         }};
     }
     for step in 0..n_steps {
